@@ -4,6 +4,9 @@ from common import *
 from flowutil import *
 import dataflows as DF
 
+import csv as _csv
+_csv.field_size_limit(10 ** 9)      # (the harness counts the data rows of files holding very long cells)
+
 PROP = 'C09'
 PROPS_V = 'Props/C09.v'
 COQ_IMPORTS = ['Base.Str', 'Base.Value', 'IO.Dump']
@@ -77,6 +80,9 @@ def gen_cases(rng, tier):
         for z in (False, True):
             cases.append({'kind': 'dump', 'pkg': rows_enc_pkg([rows5, rows5[:3], rows5[:1]]), 'format': fmt, 'zip': z, 'mode': 'fresh', 'bad': 0,
                           'counters': 0, 'hashpath': False, 'pretty': False, 'names': ['sales.2019', 'sales.2020', 'sales.2020.q1']})
+    for fmt in ('csv', 'json'):
+        cases.append({'kind': 'dump', 'pkg': rows_enc_pkg([[{'id': 0, 't': 'x', 'n': 1.5}, {'id': 1, 't': 'é', 'n': None}], [{'id': 2, 't': 'y', 'n': 2}]]),
+                      'format': fmt, 'zip': fmt == 'json', 'mode': 'fresh', 'bad': 0, 'counters': 0, 'hashpath': False, 'pretty': False, 'bigcell': 1000000})
     # systematically: add_filehash_to_path with resources whose files are byte-identical (they share the hash directory),
     # dumped afresh and again into the same directory
     rows = [{'id': j, 't': 'x', 'n': None} for j in range(2)]
@@ -114,6 +120,9 @@ def dump_once(case, target, source=None, extra=0):
     res = []
     for i, rows in enumerate(case['pkg']):
         rr = rows_dec(rows) + [{'id': 1000 + j, 't': 'more', 'n': None} for j in range(extra)]
+        if case.get('bigcell'):
+            # cells of a million characters (ASCII and multi-byte): files of several MiB
+            rr = [dict(r, t=(r['t'] or 'x') * case['bigcell']) for r in rr]
         for j in range(case.get('bad', 0)):
             rr.insert(min(len(rr), 1 + j), {'id': 'not-a-number-%d' % j, 't': 'bad', 'n': None})
         res.append({'name': case['names'][i] if case.get('names') else 'r%d' % i, 'fields': [{'name': 'id', 'type': 'integer'}, {'name': 't', 'type': 'string'},
